@@ -221,7 +221,11 @@ func (c08) Run(c Case, env *Env) Result {
 			check(float64(x), int(x-c.A), x%97 == 0)
 		}
 		res.NTCount = c.B - c.A - 2
-		res.Sample(map[string]interface{}{"kind": "integral doubles", "from": c.A, "to": c.B})
+		{
+			f := float64(c.A)
+			w, out, _, _, k := ss.rt(f)
+			res.Sample(map[string]interface{}{"kind": "integral doubles", "from": c.A, "to": c.B, "first": map[string]interface{}{"value": f, "wire": fmt.Sprintf("%x", w), "decoded": fmt.Sprintf("%T %v", out, out), "bytes_consumed": k}})
+		}
 	case "f32range":
 		n := int64(0)
 		for x := c.A; x < c.B && x < 1<<32; x++ {
@@ -234,7 +238,11 @@ func (c08) Run(c Case, env *Env) Result {
 		}
 		res.NTCount = n
 		res.Count("float32_patterns", n)
-		res.Sample(map[string]interface{}{"kind": "float32 bit patterns widened", "from": fmt.Sprintf("%08x", c.A), "to": fmt.Sprintf("%08x", c.B)})
+		{
+			f := float64(math.Float32frombits(uint32(c.A)))
+			w, out, _, _, k := ss.rt(f)
+			res.Sample(map[string]interface{}{"kind": "float32 bit patterns widened", "from": fmt.Sprintf("%08x", c.A), "to": fmt.Sprintf("%08x", c.B), "first": map[string]interface{}{"value": fmt.Sprint(f), "wire": fmt.Sprintf("%x", w), "decoded": fmt.Sprintf("%T %v", out, out), "bytes_consumed": k}})
+		}
 	case "rand64":
 		r := rand.New(rand.NewSource(c.Seed))
 		for j := 0; j < c.Count; j++ {
